@@ -172,7 +172,14 @@ func extract(filter types.Value) (types.Value, error) {
 				return nil, errors.WithMessagef(ErrUnsupportedType, "value: %v", value.Interface())
 			}
 			for _, sub := range vals.Range() {
-				child, err := types.Cast[types.Map](extract(sub))
+				val, err := extract(sub)
+				if err != nil {
+					return nil, err
+				}
+				if val == nil {
+					continue
+				}
+				child, err := types.Cast[types.Map](val)
 				if err != nil {
 					return nil, err
 				}
